@@ -34,6 +34,7 @@ PROP = {  # keyword in subject -> (property, what failed)
  "ResponseNextTx decodes": ("C21", "stream 8106 8101 in one segment failed to decode; 82068200d81840 cut at 2 yielded ResponseNextTx(None) early"),
  "empty payload for a rejection": ("C21", "segments 8101 | <empty> | 8101 yielded RejectTx(\"\") as second message"),
  "does not assert on an unexpected Connected": ("C29", "Connected(p) twice (or after a message) hit assert!(handshake == Propose) in propose_handshake"),
+ "unknown variant tag": ("C09", "bytes a3 80 11 decoded as BTreeMap<DRep,Coin> (and GovAction / FuturePParams / NextEpochChange with an unknown tag) hit unreachable!()"),
  "CostModels encodes": ("C06", "conway CostModels{unknown:{3:[1]}} encoded as a0 and decoded with unknown:{}"),
 }
 log = subprocess.run(["git","-C","/repo","log","--format=%h\t%s","--grep=^fix:"],capture_output=True,text=True).stdout.strip().splitlines()
